@@ -98,6 +98,59 @@ def run(ctx):
                 ctx.holds('R-COPY', cfg, inst)
                 if n % 1500 == 7:
                     ctx.sample({'config': cfg, 'fn': inst, 'result': str(r.ret)[:200]})
+        # trait default methods (the identity swizzles xy / xyz / xyzw are provided by the trait and inherited by every impl):
+        # the generic body must hand back `self` and nothing else
+        n_def = 0
+        for name, it in F.items.items():
+            tr = it.get('in_trait') or ''
+            if tr not in TRAITS or not it.get('generic'):
+                continue
+            body = F.body(it['key'])
+            if body is None:
+                continue          # a required method: every impl supplies it and is checked above
+            n_def += 1
+            inst = '%s::%s (default body)' % (tr.rsplit('::', 1)[-1], it['name'])
+            dim = TRAITS[tr]
+            if it['name'] != 'xyzw'[:dim]:
+                ctx.violation('R-COPY', cfg, inst, {'file': it['file'], 'line': it['line'],
+                              'problem': 'only the identity swizzle can have a type-independent default body; %s has one' % it['name']})
+                continue
+            bad = None
+            is_self = {1}
+            seen_blocks, bi = set(), 0
+            while bad is None:
+                if bi in seen_blocks:
+                    bad = 'loop in the body'
+                    break
+                seen_blocks.add(bi)
+                blk = body['blocks'][bi]
+                for st in blk['s']:
+                    if st[0] != 'a':
+                        continue
+                    dst, rv = st[1], st[2]
+                    if rv[0] == 'use' and rv[1][0] in ('c', 'm') and not rv[1][1][1] and rv[1][1][0] in is_self and not dst[1]:
+                        is_self.add(dst[0])
+                    else:
+                        is_self.discard(dst[0])
+                        if dst[0] == 0 or dst[1]:
+                            bad = 'the result is computed by %s, not copied from self' % str(rv)[:120]
+                            break
+                t = blk['t']
+                if bad:
+                    break
+                if t[0] == 'ret':
+                    if 0 not in is_self:
+                        bad = 'the returned value is not self'
+                    break
+                if t[0] == 'goto':
+                    bi = t[1]
+                    continue
+                bad = 'the body has a %s terminator (a call or branch); the identity swizzle returns self directly' % t[0]
+            if bad:
+                ctx.violation('R-COPY', cfg, inst, {'file': it['file'], 'line': it['line'], 'problem': bad})
+            else:
+                ctx.holds('R-COPY', cfg, inst)
+        ctx.floor('trait-provided identity swizzles analysed (%s)' % cfg, n_def, 3)
         ctx.floor('swizzle methods analysed (%s)' % cfg, n, FLOOR)
         ctx.floor('types implementing a swizzle trait (%s)' % cfg, len(impl_types), 34)
         ctx.count('swizzle_fns:' + cfg, n)
